@@ -12,7 +12,7 @@
   __CPROVER_requires(!self->_mutex.held && !self->_configMutex.held && self->_tasks.guard == &self->_mutex && self->_threads.guard == &self->_mutex) \
   __CPROVER_requires(TP_INV(self) && TP_NOWRAP(self) && !G_acquired && !G_constructing && self->_maxQueueSize < ((size_t)1 << 30)) \
   __CPROVER_requires(ME.active == 0 && ME.busy == 0 && !ME.took && !ME.took_witness && ME.pops == 0 && ME.runs == 0 && ME.pushes == 0 && ME.spawns == 0)
-#define TP_ASSIGNS TP_SHARED_BY_ENV, self->_tasks.other, self->_mutex.held, self->_configMutex.held, ME, LIN, LIN0, G_acquired, G_rel_hi
+#define TP_ASSIGNS TP_SHARED_BY_ENV, self->_mutex.held, self->_configMutex.held, ME, LIN, LIN0, G_acquired, G_rel_hi
 #define TP_UNLOCKED (!self->_mutex.held && !self->_configMutex.held)
 
 /* ------------------------------------------------------------------ submission path */
@@ -66,13 +66,13 @@ void ThreadPool_spawnWorker_contract(ThreadPool *self)
 __CPROVER_requires(IORA_TRUE && iora_exc == EXC_NONE)
 __CPROVER_requires(__CPROVER_is_fresh(self, sizeof(*self)))
 __CPROVER_requires(!self->_mutex.held && !self->_configMutex.held && self->_tasks.guard == &self->_mutex && self->_threads.guard == &self->_mutex)
-__CPROVER_requires(TP_INV(self) && TP_NOWRAP(self) && ME.spawns == 0)
+__CPROVER_requires(TP_INV(self) && TP_NOWRAP(self) && ME.spawns < 999)
 __CPROVER_assigns(TP_ASSIGNS)
 /* SP1 */ __CPROVER_ensures(TP_UNLOCKED)
-/* SP2 at most one map entry is added, under the lock */ __CPROVER_ensures(ME.spawns <= 1 && self->_threads.n == LIN.nthreads + ME.spawns)
-/* SP3 never beyond the configured maximum */ __CPROVER_ensures(ME.spawns == 1 ==> LIN.nthreads < self->_maxSize)
-/* SP4 while there is room a worker IS added */ __CPROVER_ensures(LIN.nthreads < self->_maxSize ==> ME.spawns == 1)
-/* SP5 monitor invariant (used where this contract replaces the call: constructor) */ __CPROVER_ensures(TP_INV(self) && TP_NOWRAP(self) && G_acquired)
+/* SP2 at most one map entry is added, under the lock */ __CPROVER_ensures(ME.spawns - __CPROVER_old(ME.spawns) <= 1 && self->_threads.n == LIN.nthreads + (ME.spawns - __CPROVER_old(ME.spawns)))
+/* SP3 never beyond the configured maximum */ __CPROVER_ensures(ME.spawns != __CPROVER_old(ME.spawns) ==> LIN.nthreads < self->_maxSize)
+/* SP4 while there is room a worker IS added */ __CPROVER_ensures(LIN.nthreads < self->_maxSize ==> ME.spawns == __CPROVER_old(ME.spawns) + 1)
+/* SP5 monitor invariant (used where this contract replaces the call: constructor) */ __CPROVER_ensures(TP_INV(self) && TP_NOWRAP(self) && G_acquired && TP_GUARDS_OK)
 ;
 void h_spawnWorker(void)
 {
@@ -150,8 +150,7 @@ TP_PRE
 __CPROVER_assigns(TP_ASSIGNS, self->_condition.n_all)
 /* S1a */ __CPROVER_ensures(TP_UNLOCKED && __CPROVER_return_value.success)
 /* S1b already shut down: reported, nothing signalled */ __CPROVER_ensures(__CPROVER_return_value.wasAlreadyShutdown == LIN.shutdown)
-/* S1c otherwise every waiting worker is notified AFTER the flag was set under the lock (CV1 is asserted at the assignment) */
-__CPROVER_ensures(self->_condition.n_all == __CPROVER_old(self->_condition.n_all) + ((!LIN.shutdown && __CPROVER_old(self->_condition.n_all) < 0x7fffffffu) ? 1 : 0))
+/* S1c otherwise every waiting worker is notified AFTER the flag was set under the lock (CV1 is asserted at the assignment) */ __CPROVER_ensures(self->_condition.n_all == __CPROVER_old(self->_condition.n_all) + ((!LIN.shutdown && __CPROVER_old(self->_condition.n_all) < 0x7fffffffu) ? 1 : 0))
 ;
 void h_phase1(void)
 {
@@ -167,8 +166,7 @@ TP_PRE
 __CPROVER_assigns(TP_ASSIGNS)
 /* S3a */ __CPROVER_ensures(TP_UNLOCKED)
 /* S3b success xor timed out */ __CPROVER_ensures(__CPROVER_return_value.success == !__CPROVER_return_value.timedOut)
-/* DR2 "drained" is sound: every task accepted before the pending-count was read has FINISHED (witness) */
-__CPROVER_ensures((__CPROVER_return_value.success && GQ < G_rel_hi) ==> GW.done)
+/* DR2 "drained" is sound: every task accepted before the pending-count was read has FINISHED (witness) */ __CPROVER_ensures((__CPROVER_return_value.success && GQ < G_rel_hi) ==> GW.done)
 ;
 void h_phase3(void)
 {
@@ -178,24 +176,22 @@ void h_phase3(void)
   if (r.success) { IORA_CANARY("h_phase3: drained"); } else { IORA_CANARY("h_phase3: timed out"); }
 }
 
-/* ------------------------------------------------------------------ constructor (member-initialiser list + body) */
-void ThreadPool_ctor_contract(ThreadPool *self, size_t initialSize, size_t maxSize, int64_t idleTimeout, size_t maxQueueSize, iora_handler onTaskError, ShutdownMode shutdownMode)
-__CPROVER_requires(IORA_TRUE && iora_exc == EXC_NONE && __CPROVER_is_fresh(self, sizeof(*self)) && G_constructing && !G_acquired)
-/* default-constructed members and default member initialisers of the class */
-__CPROVER_requires(!self->_mutex.held && !self->_configMutex.held && self->_tasks.guard == &self->_mutex && self->_threads.guard == &self->_mutex)
-__CPROVER_requires(self->_tasks.lo == self->_tasks.hi && self->_tasks.hi < ((size_t)1 << 62) && self->_threads.n == 0 && !self->_threads.has_self)
-__CPROVER_requires(self->_workerScaling && self->_threadsCreated == 0 && self->_threadsStarted == 0 && self->_threadsExited == 0 && self->_waitingThreads == 0)
-__CPROVER_requires(!self->_accepting && self->_lifecycleState == LifecycleState_Created && !GW.running && !GW.done && GQ >= self->_tasks.lo)
-__CPROVER_requires(ME.active == 0 && ME.busy == 0 && !ME.took && !ME.took_witness && ME.pops == 0 && ME.runs == 0 && ME.pushes == 0 && ME.spawns == 0)
-__CPROVER_requires(maxQueueSize < ((size_t)1 << 30))
-__CPROVER_assigns(TP_ASSIGNS, self->_initialSize, self->_maxSize, self->_idleTimeout, self->_maxQueueSize, self->_onTaskError, self->_shutdownMode)
-/* CT1 the configuration admits a worker: with _maxSize == 0 every accepted task would wait forever */ __CPROVER_ensures(self->_maxSize >= 1)
-/* CT2 */ __CPROVER_ensures(TP_UNLOCKED && self->_maxQueueSize == maxQueueSize && self->_initialSize == initialSize)
+/* ------------------------------------------------------------------ constructor: member-initialiser list + body up to the spawn loop
+ * (block target; the rest of the constructor is `for (i < workerCount) spawnWorker();`, and spawnWorker has its own proof) */
+size_t ThreadPool_ctor_contract(ThreadPool *self, size_t initialSize, size_t maxSize, int64_t idleTimeout, size_t maxQueueSize, iora_handler onTaskError, ShutdownMode shutdownMode)
+__CPROVER_requires(IORA_TRUE && iora_exc == EXC_NONE && __CPROVER_is_fresh(self, sizeof(*self)) && G_constructing)
+/* default member initialisers of the class */
+__CPROVER_requires(self->_workerScaling && !self->_accepting && self->_lifecycleState == LifecycleState_Created)
+__CPROVER_assigns(self->_initialSize, self->_maxSize, self->_idleTimeout, self->_maxQueueSize, self->_shutdown, self->_activeThreads, self->_busyThreads, self->_onTaskError, self->_shutdownMode, self->_accepting, self->_lifecycleState)
+/* CT1 the configuration admits a worker: with _maxSize == 0 every accepted task waits forever and the destructor gives up on it */ __CPROVER_ensures(self->_maxSize >= 1)
+/* CT2 */ __CPROVER_ensures(self->_maxQueueSize == maxQueueSize && self->_initialSize == initialSize && self->_activeThreads == 0 && self->_busyThreads == 0)
+/* CT3 the pool starts open */ __CPROVER_ensures(self->_accepting && !self->_shutdown && self->_lifecycleState == LifecycleState_Running)
+/* CT4 number of initial workers requested */ __CPROVER_ensures(__CPROVER_return_value == (self->_workerScaling ? self->_initialSize : self->_maxSize))
 ;
 void h_ctor(void)
 {
   ThreadPool *s; size_t a, b, d; int64_t c; iora_handler e; ShutdownMode m;
-  ThreadPool_ctor(s, a, b, c, d, e, m);
+  size_t n = ThreadPool_ctor(s, a, b, c, d, e, m);
   IORA_CANARY("h_ctor: returns");
 }
 
@@ -205,8 +201,7 @@ TP_PRE
 __CPROVER_requires(timeoutMs <= 2147483000u)
 __CPROVER_assigns(TP_ASSIGNS)
 /* D1 */ __CPROVER_ensures(TP_UNLOCKED)
-/* DR2 "drain completed" is sound: every task accepted before the pending-count was read has FINISHED (witness) */
-__CPROVER_ensures((__CPROVER_return_value && GQ < G_rel_hi) ==> GW.done)
+/* DR2 "drain completed" is sound: every task accepted before the pending-count was read has FINISHED (witness) */ __CPROVER_ensures((__CPROVER_return_value && GQ < G_rel_hi) ==> GW.done)
 ;
 void h_drain_wait(void)
 {
@@ -221,12 +216,30 @@ void ThreadPool_shutdown_wait_contract(ThreadPool *self)
 TP_PRE
 __CPROVER_assigns(TP_ASSIGNS, self->_condition.n_all)
 /* SH1 */ __CPROVER_ensures(TP_UNLOCKED)
-/* SH2 the flag was set under the lock (CV1 at the assignment) and every waiting worker notified afterwards; a second call does nothing */
-__CPROVER_ensures(self->_condition.n_all == __CPROVER_old(self->_condition.n_all) + ((!LIN0.shutdown && __CPROVER_old(self->_condition.n_all) < 0x7fffffffu) ? 1 : 0))
+/* SH2 the flag was set under the lock (CV1 at the assignment) and every waiting worker notified afterwards; a second call does nothing */ __CPROVER_ensures(self->_condition.n_all == __CPROVER_old(self->_condition.n_all) + ((!LIN0.shutdown && __CPROVER_old(self->_condition.n_all) < 0x7fffffffu) ? 1 : 0))
 ;
 void h_shutdown_wait(void)
 {
   ThreadPool *s;
   ThreadPool_shutdown_wait(s);
   IORA_CANARY("h_shutdown_wait: returns");
+}
+
+/* ------------------------------------------------------------------ shutdown phase 4: join */
+ShutdownPhase4Result ThreadPool_shutdownPhase4_JoinThreads_contract(ThreadPool *self)
+TP_PRE
+__CPROVER_requires(JN.erased == 0 && JN.joined == 0 && JN.detached == 0 && !JN.witness_joined && 0 <= G_thread_budget && G_thread_budget <= (1 << 29))
+__CPROVER_assigns(TP_ASSIGNS, G_wpos, G_last_joinable, G_thread_budget, JN)
+/* S4a */ __CPROVER_ensures(TP_UNLOCKED && __CPROVER_return_value.success)
+/* S4b when phase 4 returns no joinable thread is left in the map (witness entry; state of the last traversal, under the lock) */ __CPROVER_ensures(self->_threads.has_self ==> !self->_threads.self_joinable)
+/* S4c every thread removed from the map was joined - or detached, and that only in DETACHED mode */ __CPROVER_ensures(0 <= JN.joined && 0 <= JN.detached && JN.joined <= (1 << 29) && JN.detached <= (1 << 29) && JN.erased == JN.joined + JN.detached && (self->_shutdownMode != ShutdownMode_DETACHED ==> JN.detached == 0))
+/* S4d the reported number is the number of threads removed */ __CPROVER_ensures(__CPROVER_return_value.threadsJoined == JN.erased)
+;
+void h_phase4(void)
+{
+  ThreadPool *s;
+  ShutdownPhase4Result r = ThreadPool_shutdownPhase4_JoinThreads(s);
+  IORA_CANARY("h_phase4: returns");
+  if (JN.joined) { IORA_CANARY("h_phase4: joined one"); }
+  if (JN.detached) { IORA_CANARY("h_phase4: detached one"); }
 }
